@@ -260,12 +260,15 @@ static void exec_line(const char *line_in) {
     else if ((!strcmp(op, "ws") || !strcmp(op, "wy") || !strcmp(op, "wn") || !strcmp(op, "wr")) && na >= 1) {
         NEEDW; uint8_t *s; size_t sl = unhex(arg[0], &s);
         uint8_t *ex = malloc(sl ? sl : 1); memcpy(ex, s, sl); int r;
+        if (na >= 2 && !strcmp(arg[1], "N") && sl == 0) { free(ex); ex = NULL; }   /* an empty value as (NULL, 0), as std::vector<uint8_t>().data() gives it */
         if (!strcmp(op, "ws")) r = binson_write_string_with_len(wo->w, (const char *)ex, sl);
         else if (!strcmp(op, "wy")) r = binson_write_bytes(wo->w, ex, sl);
         else if (!strcmp(op, "wr")) r = binson_write_raw(wo->w, ex, sl);
         else { char *z = malloc(sl + 1); memcpy(z, s, sl); z[sl] = 0; r = binson_write_name(wo->w, z); free(z); }
         free(s); free(ex); wobs(k, r);
-    } else if (!strcmp(op, "wc")) { NEEDW; wobs(k, 1); }
+    } else if (!strcmp(op, "wnN")) { NEEDW; wobs(k, binson_write_name(wo->w, NULL)); }
+    else if (!strcmp(op, "wrN") && na >= 1) { NEEDW; wobs(k, binson_write_raw(wo->w, NULL, (size_t)strtoull(arg[0], NULL, 10))); }
+    else if (!strcmp(op, "wc")) { NEEDW; wobs(k, 1); }
     else if (!strcmp(op, "wv")) {
         NEEDW;
         if (wo->isnull || wo->w->buffer_used > wo->cap) fprintf(fout, "skip\n");   /* would read past the destination */
@@ -322,7 +325,10 @@ static int64_t pick_int(void) {
     case 2: return (int64_t)(r64() >> rn(64)) * (chance(50) ? 1 : -1);
     default: return (int64_t)rn(300) - 150; }
 }
-static uint64_t DBL[] = { 0, 0x8000000000000000ULL, 1, 0x000fffffffffffffULL, 0x0010000000000000ULL, 0x7fefffffffffffffULL, 0x7ff0000000000000ULL,
+static uint64_t DBL[] = { 0, 0x8000000000000000ULL, 1,
+    /* bit patterns that are small as an int64 (every integer width boundary, both signs): a double must not be packed like an integer */
+    0x7fULL, 0x80ULL, 0x1234ULL, 0x7fffULL, 0x8000ULL, 0x12345678ULL, 0x7fffffffULL, 0x80000000ULL, 0xffffffffffffff80ULL, 0xffffffffffffff7fULL,
+    0xffffffffffff8000ULL, 0xffffffffffff7fffULL, 0xffffffff80000000ULL, 0xffffffff7fffffffULL, 0x000fffffffffffffULL, 0x0010000000000000ULL, 0x7fefffffffffffffULL, 0x7ff0000000000000ULL,
     0xfff0000000000000ULL, 0x7ff8000000000000ULL, 0xfff8000000000001ULL, 0x7ff0000000000001ULL, 0x3fe0000000000000ULL, 0x3ff0000000000000ULL,
     0x400921fb54442d18ULL, 0x0102030405060708ULL, 0x7fe1ccf385ebc8a0ULL /*1e308*/, 0x3eb0c6f7a0b5ed8dULL, 0x3ea0c6f7a0b5ed8dULL, 0x4059000000000000ULL, 0xc08f400000000000ULL, 0x3fc999999999999aULL };
 static uint64_t pick_dbl(void) { return chance(60) ? DBL[rn(sizeof DBL / sizeof *DBL)] : r64(); }
@@ -474,6 +480,11 @@ static void nav_ops(int k, int arr, int maxops, int finish, int all_getters, int
         if (p->error_flags) return;
         if (++steps > maxops && !finish) return;
         if (steps > maxops + 2000) return;
+        if (steps <= maxops && chance(2)) {   /* abandon the traversal where it stands: reset, start again from the root */
+            emit("@%d r", k); if (!last_ret || p->error_flags) return;
+            emit("@%d %s", k, arr ? "ia" : "io"); if (!last_ret || p->error_flags) return;
+            sp = 0; stack[sp++] = arr ? 'a' : 'o'; pending = 0; continue;
+        }
         int top = stack[sp - 1];
         int x = (int)rn(100);
         if (steps > maxops) x = (pending && chance(30)) ? 65 : 95;           /* wrap up */
@@ -536,7 +547,7 @@ static void any_op(int k) {
         emit_field(k, op, pick_name(), (int)rn(10));
     }
     else if (!strcmp(op, "se")) { char *h = hexs((const uint8_t *)"abc", rn(4)); emit("@%d se %s", k, h); free(h); }
-    else if (!strcmp(op, "ts")) { if (chance(30)) emit("@%d ts NULL", k); else emit("@%d ts %u", k, rn(chance(50) ? 8 : 120)); }
+    else if (!strcmp(op, "ts")) { if (chance(30)) { if (chance(50)) emit("@%d ts NULL", k); else emit("@%d ts NULL %u", k, 1 + rn(300)); } else emit("@%d ts %u", k, rn(chance(50) ? 8 : 120)); }
     else emit("@%d %s", k, op);
 }
 
@@ -550,9 +561,11 @@ static void gen_verify(long id) {
     if (chance(20)) emit("@0 v");
     if (chance(10)) { emit("@0 n"); emit("@0 v"); }
 }
+static void gen_longname_doc(Buf *o, int arr);
 static void gen_nav(long id, int all_getters) {
     int arr = chance(25);
     cont_bias = 45; gen_doc(&D, arr, 0, 3 + (int)rn(16)); cont_bias = 35;
+    if (chance(4)) gen_longname_doc(&D, arr);
     case_begin(id); new_parser(0, chance(80) ? 16 : 255); init_doc(0, arr, &D);
     if (chance(20)) emit("@0 W %u", 20 + rn(200));
     nav_ops(0, arr, 4 + (int)rn(40), chance(50), all_getters, 1, 1);
@@ -576,9 +589,25 @@ static void gen_any(long id) {
         for (int i = 0; i < ops; i++) any_op(0);
     }
 }
+/* a document whose object holds one field with a LONG name (length at a header-width boundary) between short ones;
+   the lookups of nav_ops then overshoot onto it, rewind over its 2-, 3- or 5-byte header, and go on */
+static void gen_longname_doc(Buf *o, int arr) {
+    static const size_t L[] = { 127, 128, 255, 256, 32767, 32768, 40000, 65535, 65536 };
+    size_t n = L[rn(sizeof L / sizeof *L)]; uint8_t *nm = malloc(n); memset(nm, 'k', n); if (chance(50)) nm[n - 1] = 'l';
+    o->n = 0; if (arr) put(o, 0x42);
+    put(o, 0x40);
+    put_blob(o, 0x14, (const uint8_t *)"a", 1); put_int(o, 0x10, 1, 0);
+    if (chance(50)) { put_blob(o, 0x14, (const uint8_t *)"j", 1); put(o, 0x40); put(o, 0x41); }
+    put_blob(o, 0x14, nm, n); if (chance(50)) { put(o, 0x42); put(o, 0x44); put(o, 0x43); } else put_int(o, 0x10, 2, 0);
+    if (chance(60)) { put_blob(o, 0x14, (const uint8_t *)"z", 1); put_int(o, 0x10, 3, 0); }
+    put(o, 0x41);
+    if (arr) { put_int(o, 0x10, 7, 0); put(o, 0x43); }
+    free(nm);
+}
 static void gen_stream(long id) {
     int arr = chance(25); int fault = chance(50);
     gen_doc(&D, arr, fault, 2 + (int)rn(12));
+    if (chance(4)) gen_longname_doc(&D, arr);
     int md = pick_md();
     case_begin(id); new_parser(0, md); init_doc(0, arr, &D);
     if (last_ret) nav_ops(0, arr, 3 + (int)rn(25), 1, 0, 1, 0);
@@ -595,13 +624,14 @@ static void gen_print(long id, int thorough) {
     if (thorough || need < 60) { for (size_t c = 0; c <= need + 2; c++) emit("@0 ts %zu", c); }
     else { for (int i = 0; i < 12; i++) emit("@0 ts %zu", (size_t)rn((uint32_t)need + 3)); emit("@0 ts %zu", need); emit("@0 ts %zu", need - 1); emit("@0 ts %zu", need + 1); }
     if (chance(20)) emit("@0 ts %u %u", 10 + rn(20), rn(10));   /* claimed size smaller than the block */
+    if (chance(30)) emit("@0 ts NULL %zu", chance(50) ? need : (size_t)(1 + rn(5000)));   /* size query reusing a variable that still holds an old size */
 }
 /* writer sequences */
 static void emit_wvalue(int k, int depth, int *budget, int wellformed);
 static void emit_wblob(int k, const char *op, int texty) {
     size_t n = pick_len(); uint8_t *s = malloc(n ? n : 1);
     for (size_t i = 0; i < n; i++) s[i] = texty ? (uint8_t)('a' + rn(4)) : (uint8_t)r64();
-    char *h = hexs(s, n); emit("@%d %s %s", k, op, h); free(h); free(s);
+    char *h = hexs(s, n); if (n == 0 && strcmp(op, "wr") && chance(50)) emit("@%d %s %s N", k, op, h); else emit("@%d %s %s", k, op, h); free(h); free(s);
 }
 static void emit_wobject(int k, int depth, int *budget) {
     emit("@%d wob", k); int n = (int)rn(4), idx = (int)rn(NNM / 2);
@@ -636,7 +666,7 @@ static void emit_wany(int k) {
     else if (!strcmp(op, "wd")) emit("@%d wd %llu", k, (unsigned long long)pick_dbl());
     else if (!strcmp(op, "ws") || !strcmp(op, "wy") || !strcmp(op, "wr")) emit_wblob(k, op, chance(50));
     else if (!strcmp(op, "wn")) { Name *nm = &NM[rn(NNM)]; int nul = 0; for (int j = 0; j < nm->n; j++) if (!nm->s[j]) nul = 1; if (nul) nm = &NM[3]; char *h = hexs((const uint8_t *)nm->s, (size_t)nm->n); emit("@%d wn %s", k, h); free(h); }
-    else if (!strcmp(op, "wx")) { if (chance(15)) emit("@%d wx", k); else emit("@%d wc", k); }
+    else if (!strcmp(op, "wx")) { if (chance(15)) emit("@%d wx", k); else if (chance(8)) { if (chance(50)) emit("@%d wnN", k); else emit("@%d wrN %u", k, rn(6)); } else emit("@%d wc", k); }
     else emit("@%d %s", k, op);
 }
 /* 1 when the error flag of writer k has just become non-zero (a dump right then is the baseline of the latch oracle) */
@@ -662,8 +692,11 @@ static void gen_writer(long id, int thorough) {
     if (thorough && total <= 300) { for (size_t c = 0; c <= total + 2; c++) { emit("@0 W %zu", c); for (int i = 1; i < nl; i++) { char b[1 << 18]; snprintf(b, sizeof b, "@0%s", lines[i] + 2); emit("%s", b); if (chance(25) || w_err_edge(0)) emit("@0 dump"); } emit("@0 dump"); if (wellformed) emit("@0 wv"); } }
     else { if (thorough) ncap = 5; for (int j = 0; j < ncap; j++) { emit("@0 W %zu", caps[j]); for (int i = 1; i < nl; i++) { char b[1 << 18]; snprintf(b, sizeof b, "@0%s", lines[i] + 2); emit("%s", b); if (chance(10) || w_err_edge(0)) emit("@0 dump"); } emit("@0 dump"); if (wellformed) emit("@0 wv"); } }
     if (chance(10)) { emit("@0 W NULL"); emit("@0 wb 1"); emit("@0 wx"); }
+    if (chance(10)) {   /* a NULL argument as the very first call (counter still 0), then reset: must come back like a fresh writer */
+        emit("@0 W %u", 2 + rn(30)); if (chance(50)) emit("@0 wnN"); else emit("@0 wrN %u", rn(9)); emit("@0 dump"); emit("@0 wx"); emit("@0 wob"); emit("@0 wb 1"); emit("@0 woe"); emit("@0 dump");
+    }
     if (chance(12)) {   /* an error that is not an overflow: reset refuses a destination of fewer than 2 bytes; nothing may be stored afterwards */
-        emit("@0 W %u", rn(2)); emit("@0 wx"); emit("@0 dump"); int n = 1 + (int)rn(4); for (int i = 0; i < n; i++) { emit_wany(0); if (chance(50)) emit("@0 dump"); } emit("@0 dump");
+        emit("@0 W %u", rn(2)); emit("@0 wx"); emit("@0 dump"); if (chance(50)) emit("@0 wx"); int n = 1 + (int)rn(4); for (int i = 0; i < n; i++) { emit_wany(0); if (chance(50)) emit("@0 dump"); } emit("@0 dump");
     }
     free(mo); free(mi);
 }
